@@ -316,7 +316,6 @@ class Spec:
                     for mode, fsel in ((0, 0.35 + 0.3 * fr.clip(0, 1)), (1, 0.6 - 0.2 * fr.clip(0, 1))):
                         b.FK(b.leg_ext_min + fsel * (b.leg_ext_max - b.leg_ext_min), fk_mode=mode)
                     b.move(self.tm(list(MOVE_B)))
-                    b.FK(b.leg_ext_min + 0.5 * (b.leg_ext_max - b.leg_ext_min) * np.ones(6), fk_mode=0)
                     b.validate()
                 st.second = b        # stays alive with the state
                 return st, obs
